@@ -219,7 +219,7 @@ func checkC19(c *Ctx, r *Report) {
 				}
 				onEdge := false
 				for _, s := range b.Succs {
-					if edgeDominates(b, s, ri.Ret.Block()) {
+					if edgeDominates(b, s, ri.At) {
 						onEdge = true
 					}
 				}
